@@ -153,7 +153,42 @@ func goid() int64 {
 // Stepper: runs one function of the system under test to completion with every entropy read of
 // a non-worker goroutine parked and released one at a time in chooser order.
 
+// entryLabel identifies the calling goroutine by its entry function and that function's small
+// integer arguments (e.g. "signing.(*round2).Start.func1(0x1" for the Bob_mid goroutine of peer 1),
+// read from the goroutine's own stack. Parked readers are ordered by this label first and by
+// goroutine id second, so that the order does not depend on how the Go scheduler numbered
+// goroutines that were created on different Ps; goroutines with equal labels run the same code on
+// the same inputs and are interchangeable.
+func entryLabel() string {
+	buf := make([]byte, 16384)
+	n := runtime.Stack(buf, false)
+	lines := strings.Split(string(buf[:n]), "\n")
+	for i := len(lines) - 1; i >= 0; i-- {
+		if strings.HasPrefix(lines[i], "created by ") && i >= 2 {
+			fn := strings.TrimSpace(lines[i-2])
+			k := strings.LastIndex(fn, "(")
+			if k < 0 {
+				return fn
+			}
+			name, args := fn[:k], strings.Split(strings.TrimSuffix(fn[k+1:], ")"), ", ")
+			var small []string
+			for _, a := range args {
+				a = strings.TrimSuffix(a, "?")
+				if v, err := strconv.ParseUint(strings.TrimPrefix(a, "0x"), 16, 64); err == nil && v < 1<<20 {
+					small = append(small, a)
+				}
+			}
+			if j := strings.LastIndex(name, "/"); j >= 0 {
+				name = name[j+1:]
+			}
+			return name + "(" + strings.Join(small, ",")
+		}
+	}
+	return ""
+}
+
 type parkReq struct {
+	entry string
 	goid  int64
 	kind  string
 	reply chan *DRBG
@@ -219,7 +254,7 @@ func (r *NodeRand) Read(p []byte) (int, error) {
 	if w == 0 || g == w {
 		return r.main.Read(p)
 	}
-	req := &parkReq{goid: g, kind: r.node + "/" + r.kind, reply: make(chan *DRBG, 1)}
+	req := &parkReq{goid: g, entry: entryLabel(), kind: r.node + "/" + r.kind, reply: make(chan *DRBG, 1)}
 	st.mu.Lock()
 	st.parked = append(st.parked, req)
 	st.mu.Unlock()
@@ -299,7 +334,12 @@ func (st *Stepper) ServeParked() bool {
 	if len(parked) == 0 {
 		return false
 	}
-	sort.SliceStable(parked, func(i, j int) bool { return parked[i].goid < parked[j].goid })
+	sort.SliceStable(parked, func(i, j int) bool {
+		if parked[i].entry != parked[j].entry {
+			return parked[i].entry < parked[j].entry
+		}
+		return parked[i].goid < parked[j].goid
+	})
 	for _, p := range parked {
 		if _, ok := st.labels[p.goid]; !ok {
 			st.labels[p.goid] = st.nextLabel
@@ -757,7 +797,14 @@ func firstRepoFrames(stack string) string {
 	var out []string
 	for i := 0; i+1 < len(lines); i++ {
 		if strings.Contains(lines[i+1], "/repo/") && !strings.HasPrefix(lines[i], "\t") {
-			out = append(out, strings.TrimSpace(lines[i])+" @ "+strings.TrimSpace(lines[i+1]))
+			// function name and file:line only: argument values and pc offsets are addresses that differ
+			// from process to process and must not reach the event log
+			fn := strings.TrimSpace(lines[i])
+			if k := strings.LastIndex(fn, "("); k > 0 {
+				fn = fn[:k]
+			}
+			loc := strings.Fields(strings.TrimSpace(lines[i+1]))[0]
+			out = append(out, fn+" @ "+loc)
 			if len(out) >= 4 {
 				break
 			}
